@@ -47,10 +47,10 @@ def run(ctx):
         c = cases[i]
         requests.append({"id": n, "case": i, "op": c["op"], "start": c["start"], "path": c["path"], "args": c["args"],
                          "may_appear": c["may_appear"]})
-    ctx.constants.update({"tree": "ROOT{f,lit,m,romut(ro),sub,rosub(ro)->D2,d2rw->D2} SUB{f,m} D2{f,m,d} D3{f}",
-                          "starts": "ROOT.{write,read,verify} D2.{read,write} SUB.write M1.{write,read,verify} M3.{read,write}",
+    ctx.constants.update({"tree": "ROOT{f,lit,m,romut(ro),sub,rosub(ro)->D2,d2rw->D2,idir->ID(immutable dir)} SUB{f,m} D2{f,m,d} D3{f} ID{f}",
+                          "starts": "ROOT.{write,read,verify} D2.{read,write} SUB.write ID.read M1.{write,read,verify} M3.{read,write}",
                           "rows": len(cases), "rows_expect_performed": len(performed)})
-    out = ctx.impl("harness/web_auth_driver.py", [], {"requests": requests}, timeout=3000)
+    out = ctx.impl("harness/web_auth_driver.py", ["--jobs", 3 if ctx.quick else 6], {"requests": requests}, timeout=3000)
     res = out["results"]
 
     stats = {"refused": 0, "performed": 0, "read": 0, "private": 0, "dropped_connection": 0}
@@ -108,7 +108,7 @@ def run(ctx):
                         "real": {"status": o["status"], "changed": o["changed"], "new_objects": o["new_objects"], "leaks": o["leaks"]}})
     if stats["performed"] == 0 or stats["refused"] == 0:
         raise RuntimeError("vacuous run: %s" % stats)
-    ctx.rule = ("every row of the Spec's table whose outcome is refused / read / private is replayed (in a seeded order, as one history on "
+    ctx.rule = ("every row of the Spec's table whose outcome is refused / read / private is replayed (in a seeded order, dealt to 3 (thorough: 6) workers, each one history on "
                 "one gateway whose node cache holds live rw nodes of every object); rows that must be performed are all replayed in "
                 "thorough and one per operation plus a seeded sample in quick, each followed by restoring the share files and a fresh "
                 "gateway. non-trivial = a modifying request, or a read through a read-only/verify cap; distinct key = (op, shape, expectation, path)")
